@@ -527,8 +527,12 @@ func (e *c12Env) submitCase(r *Run, c c12Order, rng *rand.Rand, replay interface
 		return
 	}
 	signedMsg := append([]byte(nil), e.signer.lastMsg...)
+	signerKey := int(e.signer.lastLoc.Index)
+	if e.signer.lastLoc.Family != acct.TraderKey.KeyLocator.Family {
+		signerKey += 900000
+	}
 	r.Emit(fmt.Sprintf("C12 prepare %s %d", c.tok(), k),
-		fmt.Sprintf("ok:%d.%s", e.signer.lastLoc.Index, c14Hex(signedMsg)))
+		fmt.Sprintf("ok:%d.%s", signerKey, c14Hex(signedMsg)))
 	e.srv.got = nil
 	sres := c14Guard(func() error { return e.client.SubmitOrder(e.ctx, o, params) })
 	if sres != "ok" || e.srv.got == nil {
